@@ -43,6 +43,39 @@ def diag_relation(ctx):
     ctx.add_counts(evaluations=n_eval, distinct_nontrivial=n_eval)
 
 
+def _sw18(s):
+    from harness.checks import c13
+    return c13.switching(s, prefix="C18")
+
+
+def _rr18(s):
+    from harness.checks import c13
+    return c13.restart_rewrite(s, prefix="C18")
+
+
+def rewritten_histories(ctx):
+    """Operators of runs whose stored gradients are rewritten by an update function (the only path on which a stored
+    pair can lose its curvature): in the loop, in the iteration in which the run stops, and at the initial call of a
+    restart. Same scenarios as C13, judged on the C18 clauses (count, curvature, differences of what the user returned)."""
+    import multiprocessing as mp
+
+    from harness.checks import c13
+    from harness.common import NCPU
+    from harness.tracecheck import validate
+
+    sw, _idt, rr = c13.specs(ctx)
+    with mp.get_context("fork").Pool(NCPU) as pool:
+        res = pool.map(_sw18, sw, chunksize=2) + pool.map(_rr18, rr, chunksize=2)
+    flat = [(r["spec"], kind, k, tr) for r in res for (kind, k, tr) in r["traces"] if kind != "restart"]
+    viols = validate(ctx, [t[3] for t in flat], module="Equiv", name="equiv-c18")
+    for (spec, kind, k, tr), v in zip(flat, viols):
+        for cl in sorted(v):
+            ctx.violation(cl, {"kind": "rewritten-history", "relation": kind, "k": k, "spec": spec, "trace": tr[:12],
+                               "summary": f"{kind} k={k} rewrite={spec.get('rewrite')} {spec['family']} n={spec['n']} kwargs={spec['kwargs']}"})
+    ctx.add_counts(evaluations=len(flat), distinct_nontrivial=len({(json.dumps(s, sort_keys=True), kd, k) for s, kd, k, _ in flat}))
+    ctx.cov["rewritten_histories"] = {kd: sum(1 for t in flat if t[1] == kd) for kd in ("pairs", "result", "restart-rewrite", "raises")}
+
+
 def specs(ctx):
     rng = np.random.default_rng([ctx.seed, 181])
     out = []
@@ -62,6 +95,7 @@ def run(ctx):
         c10.replay_states(ctx, recs, ("C18_",))
         ctx.add_counts(evaluations=len(recs), distinct_nontrivial=len(recs))
     diag_relation(ctx)
+    rewritten_histories(ctx)
     drivercheck.run_traces(ctx, specs(ctx), PREFIX)
     return ctx.finish("model_checking", RULE)
 
